@@ -296,7 +296,7 @@ Definition lcont (a : anchor) (c : lcx) (m : mode) : ares :=
   | LcOWbail => ADone m (OOpenW false)
   | LcSA | LcCW | LcAbUX | LcFkXu | LcFkSu | LcCR => ADone m OUnit
   | LcAbSP => match m with MExcl => fc_entry FcAbort a | MBusy => ANext AB3 | _ => ADone m OUnit end
-  | LcFcUX c' => match m with MIdle => ANext (CT c') | _ => ADone m OUnit end
+  | LcFcUX c' => match m with MIdle => if keep c' then ADone m OUnit else ANext (CT c') | _ => ADone m OUnit end
   | LcFE => match m with MExcl => ANext FE1 | MIdle => ANext FE2 | _ => ADone m (OFree false) end
   | LcFkX k =>
       match m with
@@ -319,154 +319,158 @@ Definition lcont (a : anchor) (c : lcx) (m : mode) : ares :=
   | LcCF => match m with MExcl => ANext CF2 | _ => ADone m OUnit end
   end.
 
-(* one atomic operation of an activity at pc p on anchor f *)
+(* one atomic operation of an activity at pc p on an anchor whose current value is a.
+   Returns the anchor's new value, the rest of the shared state (slices, count, pool), what comes next, events. *)
+Definition astepA (sh : mshared) (a : anchor) (p : apc) : anchor * mshared * ares * list mevent :=
+  let L := lk a in
+  match p with
+  | AL c lp =>
+      let '(L', lp', _, _) := pstep L lp [] in
+      let a' := set_lk a L' in
+      match lp' with
+      | Ready m => (a', sh, lcont a' c m, [])
+      | Crashed => (a', sh, ACrashL, [])
+      | _ => (a', sh, ANext (AL c lp'), [])
+      end
+  (* Anchor *openForWritingAt(fileno, overwriteExisting) *)
+  | OW1 ow ok => if writing L then (a, sh, ANext (OW2 ow ok), []) else (a, sh, ACrashL, [])
+  | OW2 ow ok => if readers L =? 0 then (a, sh, ANext (OW3 ow ok), []) else (a, sh, ACrashL, [])
+  | OW3 ow ok =>
+      if negb (wtbf a) && negb (kempty (akey a)) && negb ow
+      then (a, sh, callL LcOWbail MExcl OpUX, [])
+      else (a, sh, ANext (OW4 ok), [])
+  | OW4 ok =>
+      if wtbf a || negb (kempty (akey a)) then (a, sh, fc_entry (FcOW ok) a, [])
+      else (a, sh, ANext (OW5 ok), [])                                   (* assert(s.empty()) holds *)
+  | OW5 ok => (set_astart a (-1), sh, ANext (OW6 ok), [])
+  | OW6 ok => (set_asplice a (-1), sh, ANext (OW7 ok), [])
+  | OW7 ok =>
+      let sh1 := set_count sh (count sh + 1) in
+      match ok with
+      | Some k => (set_akey a k, sh1, ANext SK1, [])                     (* setKey: memcpy(key, aKey, sizeof(key)) *)
+      | None => (a, sh1, ADone MExcl (OOpenW true), [])
+      end
+  | SK1 => (set_wtbf a false, sh, ADone MExcl (OOpenW true), [])
+  (* void freeChain(fileno, inode, keepLocked) *)
+  | FC0 c => (a, sh, ANext (FC1 c (astart a)), [])
+  | FC1 c sid => (a, sh, fl_head sh c sid (asplice a), [])
+  | FL1 c sid sp =>
+      match getS sh sid with
+      | Some s => (a, sh, ANext (FL2 c sid sp (snext s)), [])
+      | None => (a, sh, ACrashD MExcl, [])
+      end
+  | FL2 c sid sp nx =>
+      match getS sh sid with
+      | Some s => (a, putS sh (Z.to_N sid) (mkSlice 0%N (snext s)), ANext (FL3 c sid sp nx), [])
+      | None => (a, sh, ACrashD MExcl, [])
+      end
+  | FL3 c sid sp nx =>
+      match getS sh sid with
+      | Some s =>
+          let sh1 := putO (putS sh (Z.to_N sid) (mkSlice (ssize s) (-1))) (Z.to_N sid) None in
+          (a, sh1, (if sid =? sp then ANext (RW1 c) else fl_head sh1 c nx sp), [MFree sid])
+      | None => (a, sh, ACrashD MExcl, [])
+      end
+  | RW1 c => if writing L then (a, sh, ANext (RW2 c), []) else (a, sh, ACrashL, [])
+  | RW2 c => (set_astart a 0, sh, ANext (RW3 c), [])
+  | RW3 c => (set_akey (set_asplice a (-1)) kzero, sh, ANext (RW4 c), [])
+  | RW4 c => (a, sh, ANext (RW5 c), [])
+  | RW5 c => (set_wtbf a false, sh, ANext (RW6 c), [])
+  | RW6 c =>
+      (set_halted a false, sh,
+       (if keep c then ANext (CT c) else callL (LcFcUX c) MExcl OpUX), [])
+  | CT c =>
+      (a, set_count sh (count sh - 1),
+       match c with
+       | FcOW ok => if kempty (akey a) then ANext (OW5 ok) else ACrashD MExcl     (* assert(s.empty()) *)
+       | FcAbort | FcCrf => ADone MIdle OUnit
+       | FcFree r => ADone MIdle (OFree r)
+       | FcFbk => callL LcFkXu MExcl OpUX
+       end, [])
+  (* void startAppending(fileno) *)
+  | SA0 => if writing L then (a, sh, callL LcSA MExcl OpSA, []) else (a, sh, ACrashL, [])
+  (* void closeForWriting(fileno) *)
+  | CW1 b => if writing L then (a, sh, callL LcCW (wmode_of b) OpUX, []) else (a, sh, ACrashL, [])
+  (* void abortWriting(fileno) *)
+  | AB1 b => if writing L then (a, sh, ANext (AB2 b), []) else (a, sh, ACrashL, [])
+  | AB2 b =>
+      if appending L then (a, sh, callL LcAbSP (wmode_of b) OpSP, [])
+      else (a, sh, fc_entry FcAbort a, [])
+  | AB3 => (set_wtbf a true, sh, ANext AB4, [])
+  | AB4 => (set_halted a true, sh, callL LcAbUX MBusy OpUX, [])
+  (* const Anchor *openForReadingAt(fileno, key) *)
+  | RD1 k =>
+      if wtbf a then (a, sh, callL LcORfail MShared OpUS, [])
+      else if ksame (akey a) k then (a, sh, ADone MShared (OOpenR (Some k)), [])
+      else (a, sh, callL LcORfail MShared OpUS, [])
+  (* void closeForReading(fileno) *)
+  | CR1 => if readers L =? 0 then (a, sh, ACrashL, []) else (a, sh, callL LcCR MShared OpUS, [])
+  (* void closeForReadingAndFreeIdle(fileno) *)
+  | CF1 => if readers L =? 0 then (a, sh, ACrashL, []) else (a, sh, callL LcCF MShared OpSX, [])
+  | CF2 => if writing L then (a, sh, ANext CF3, []) else (a, sh, ACrashL, [])
+  | CF3 => if readers L =? 0 then (a, sh, fc_entry FcCrf a, []) else (a, sh, ACrashL, [])
+  (* bool freeEntry(fileno) *)
+  | FE1 => (a, sh, fc_entry (FcFree (negb (wtbf a) && negb (kempty (akey a)))) a, [])
+  | FE2 => (set_wtbf a true, sh, ADone MIdle (OFree (negb (wtbf a))), [])
+  (* void freeEntryByKey(key) *)
+  | FK1 => (set_wtbf a true, sh, callL LcFkSu MShared OpUS, [])
+  | FK2 => (set_wtbf a true, sh, ADone MIdle OUnit, [])
+  (* the writer appends a slice *)
+  | AS1 b last id z =>
+      match getS sh id with
+      | Some s => (a, putS sh (Z.to_N id) (mkSlice 0%N (snext s)), ANext (AS2 b last id z), [])
+      | None => (a, sh, ACrashD (wmode_of b), [])
+      end
+  | AS2 b last id z =>
+      match getS sh id with
+      | Some s => (a, putS sh (Z.to_N id) (mkSlice (ssize s) (-1)), ANext (AS3 b last id z), [])
+      | None => (a, sh, ACrashD (wmode_of b), [])
+      end
+  | AS3 b last id z =>
+      if writing L then
+        match sidx sh id with Some _ => (a, sh, ANext (AS4 b last id z), []) | None => (a, sh, ACrashD (wmode_of b), []) end
+      else (a, sh, ACrashL, [])
+  | AS4 b last id z =>
+      match getS sh id with
+      | Some s => (a, putS sh (Z.to_N id) (mkSlice z (snext s)), ANext (AS5 b last id), [])
+      | None => (a, sh, ACrashD (wmode_of b), [])
+      end
+  | AS5 b last id =>
+      if writing L then
+        (if last <? 0 then (a, sh, ANext (AS6 b last id), [])
+         else match sidx sh last with Some _ => (a, sh, ANext (AS6 b last id), []) | None => (a, sh, ACrashD (wmode_of b), []) end)
+      else (a, sh, ACrashL, [])
+  | AS6 b last id =>
+      if last <? 0 then (set_astart a id, sh, ADone (wmode_of b) (OAdd id), [])
+      else match getS sh last with
+           | Some s => (a, putS sh (Z.to_N last) (mkSlice (ssize s) id), ADone (wmode_of b) (OAdd id), [])
+           | None => (a, sh, ACrashD (wmode_of b), [])
+           end
+  (* the reader walks its chain *)
+  | LK0 => if readers L =? 0 then (a, sh, ACrashL, []) else (a, sh, ANext LK1, [])
+  | LK1 => (a, sh, lk_head sh (astart a) [], [])
+  | LK2 sid acc =>
+      if readers L =? 0 then (a, sh, ACrashL, [])
+      else match sidx sh sid with Some _ => (a, sh, ANext (LK3 sid acc), []) | None => (a, sh, ACrashD MShared, []) end
+  | LK3 sid acc =>
+      match getS sh sid with
+      | Some s => (a, sh, ANext (LK4 sid (ssize s) acc), [])
+      | None => (a, sh, ACrashD MShared, [])
+      end
+  | LK4 sid sz acc =>
+      match getS sh sid with
+      | Some s => (a, sh, lk_head sh (snext s) (acc ++ [(sid, sz)]), [])
+      | None => (a, sh, ACrashD MShared, [])
+      end
+  end.
+
+(* ... on anchor f of the map *)
 Definition astep (sh : mshared) (f : N) (p : apc) : mshared * ares * list mevent :=
   match nthN f (anchors sh) with
   | None => (sh, ACrashD (match alock p with Ready m => m | _ => MIdle end), [])   (* anchorAt(): assert(validEntry(fileno)) *)
   | Some a =>
-    let L := lk a in
-    let upd a' := putA sh f a' in
-    match p with
-    | AL c lp =>
-        let '(L', lp', _, _) := pstep L lp [] in
-        let a' := set_lk a L' in
-        match lp' with
-        | Ready m => (upd a', lcont a' c m, [])
-        | Crashed => (upd a', ACrashL, [])
-        | _ => (upd a', ANext (AL c lp'), [])
-        end
-    (* Anchor *openForWritingAt(fileno, overwriteExisting) *)
-    | OW1 ow ok => if writing L then (sh, ANext (OW2 ow ok), []) else (sh, ACrashL, [])
-    | OW2 ow ok => if readers L =? 0 then (sh, ANext (OW3 ow ok), []) else (sh, ACrashL, [])
-    | OW3 ow ok =>
-        if negb (wtbf a) && negb (kempty (akey a)) && negb ow
-        then (sh, callL LcOWbail MExcl OpUX, [])
-        else (sh, ANext (OW4 ok), [])
-    | OW4 ok =>
-        if wtbf a || negb (kempty (akey a)) then (sh, fc_entry (FcOW ok) a, [])
-        else (sh, ANext (OW5 ok), [])                                   (* assert(s.empty()) holds *)
-    | OW5 ok => (upd (set_astart a (-1)), ANext (OW6 ok), [])
-    | OW6 ok => (upd (set_asplice a (-1)), ANext (OW7 ok), [])
-    | OW7 ok =>
-        let sh1 := set_count sh (count sh + 1) in
-        match ok with
-        | Some k => (putA sh1 f (set_akey a k), ANext SK1, [])           (* setKey: memcpy(key, aKey, sizeof(key)) *)
-        | None => (sh1, ADone MExcl (OOpenW true), [])
-        end
-    | SK1 => (upd (set_wtbf a false), ADone MExcl (OOpenW true), [])
-    (* void freeChain(fileno, inode, keepLocked) *)
-    | FC0 c => (sh, ANext (FC1 c (astart a)), [])
-    | FC1 c sid => (sh, fl_head sh c sid (asplice a), [])
-    | FL1 c sid sp =>
-        match getS sh sid with
-        | Some s => (sh, ANext (FL2 c sid sp (snext s)), [])
-        | None => (sh, ACrashD MExcl, [])
-        end
-    | FL2 c sid sp nx =>
-        match getS sh sid with
-        | Some s => (putS sh (Z.to_N sid) (mkSlice 0%N (snext s)), ANext (FL3 c sid sp nx), [])
-        | None => (sh, ACrashD MExcl, [])
-        end
-    | FL3 c sid sp nx =>
-        match getS sh sid with
-        | Some s =>
-            let sh1 := putO (putS sh (Z.to_N sid) (mkSlice (ssize s) (-1))) (Z.to_N sid) None in
-            (sh1, (if sid =? sp then ANext (RW1 c) else fl_head sh1 c nx sp), [MFree sid])
-        | None => (sh, ACrashD MExcl, [])
-        end
-    | RW1 c => if writing L then (sh, ANext (RW2 c), []) else (sh, ACrashL, [])
-    | RW2 c => (upd (set_astart a 0), ANext (RW3 c), [])
-    | RW3 c => (upd (set_akey (set_asplice a (-1)) kzero), ANext (RW4 c), [])
-    | RW4 c => (sh, ANext (RW5 c), [])
-    | RW5 c => (upd (set_wtbf a false), ANext (RW6 c), [])
-    | RW6 c =>
-        (upd (set_halted a false),
-         (if keep c then ANext (CT c) else callL (LcFcUX c) MExcl OpUX), [])
-    | CT c =>
-        let sh1 := set_count sh (count sh - 1) in
-        (sh1,
-         match c with
-         | FcOW ok => if kempty (akey a) then ANext (OW5 ok) else ACrashD MExcl     (* assert(s.empty()) *)
-         | FcAbort | FcCrf => ADone MIdle OUnit
-         | FcFree r => ADone MIdle (OFree r)
-         | FcFbk => callL LcFkXu MExcl OpUX
-         end, [])
-    (* void startAppending(fileno) *)
-    | SA0 => if writing L then (sh, callL LcSA MExcl OpSA, []) else (sh, ACrashL, [])
-    (* void closeForWriting(fileno) *)
-    | CW1 b => if writing L then (sh, callL LcCW (wmode_of b) OpUX, []) else (sh, ACrashL, [])
-    (* void abortWriting(fileno) *)
-    | AB1 b => if writing L then (sh, ANext (AB2 b), []) else (sh, ACrashL, [])
-    | AB2 b =>
-        if appending L then (sh, callL LcAbSP (wmode_of b) OpSP, [])
-        else (sh, fc_entry FcAbort a, [])
-    | AB3 => (upd (set_wtbf a true), ANext AB4, [])
-    | AB4 => (upd (set_halted a true), callL LcAbUX MBusy OpUX, [])
-    (* const Anchor *openForReadingAt(fileno, key) *)
-    | RD1 k =>
-        if wtbf a then (sh, callL LcORfail MShared OpUS, [])
-        else if ksame (akey a) k then (sh, ADone MShared (OOpenR (Some k)), [])
-        else (sh, callL LcORfail MShared OpUS, [])
-    (* void closeForReading(fileno) *)
-    | CR1 => if readers L =? 0 then (sh, ACrashL, []) else (sh, callL LcCR MShared OpUS, [])
-    (* void closeForReadingAndFreeIdle(fileno) *)
-    | CF1 => if readers L =? 0 then (sh, ACrashL, []) else (sh, callL LcCF MShared OpSX, [])
-    | CF2 => if writing L then (sh, ANext CF3, []) else (sh, ACrashL, [])
-    | CF3 => if readers L =? 0 then (sh, fc_entry FcCrf a, []) else (sh, ACrashL, [])
-    (* bool freeEntry(fileno) *)
-    | FE1 => (sh, fc_entry (FcFree (negb (wtbf a) && negb (kempty (akey a)))) a, [])
-    | FE2 => (upd (set_wtbf a true), ADone MIdle (OFree (negb (wtbf a))), [])
-    (* void freeEntryByKey(key) *)
-    | FK1 => (upd (set_wtbf a true), callL LcFkSu MShared OpUS, [])
-    | FK2 => (upd (set_wtbf a true), ADone MIdle OUnit, [])
-    (* the writer appends a slice *)
-    | AS1 b last id z =>
-        match getS sh id with
-        | Some s => (putS sh (Z.to_N id) (mkSlice 0%N (snext s)), ANext (AS2 b last id z), [])
-        | None => (sh, ACrashD (wmode_of b), [])
-        end
-    | AS2 b last id z =>
-        match getS sh id with
-        | Some s => (putS sh (Z.to_N id) (mkSlice (ssize s) (-1)), ANext (AS3 b last id z), [])
-        | None => (sh, ACrashD (wmode_of b), [])
-        end
-    | AS3 b last id z =>
-        if writing L then
-          match sidx sh id with Some _ => (sh, ANext (AS4 b last id z), []) | None => (sh, ACrashD (wmode_of b), []) end
-        else (sh, ACrashL, [])
-    | AS4 b last id z =>
-        match getS sh id with
-        | Some s => (putS sh (Z.to_N id) (mkSlice z (snext s)), ANext (AS5 b last id), [])
-        | None => (sh, ACrashD (wmode_of b), [])
-        end
-    | AS5 b last id =>
-        if writing L then
-          (if last <? 0 then (sh, ANext (AS6 b last id), [])
-           else match sidx sh last with Some _ => (sh, ANext (AS6 b last id), []) | None => (sh, ACrashD (wmode_of b), []) end)
-        else (sh, ACrashL, [])
-    | AS6 b last id =>
-        if last <? 0 then (upd (set_astart a id), ADone (wmode_of b) (OAdd id), [])
-        else match getS sh last with
-             | Some s => (putS sh (Z.to_N last) (mkSlice (ssize s) id), ADone (wmode_of b) (OAdd id), [])
-             | None => (sh, ACrashD (wmode_of b), [])
-             end
-    (* the reader walks its chain *)
-    | LK0 => if readers L =? 0 then (sh, ACrashL, []) else (sh, ANext LK1, [])
-    | LK1 => (sh, lk_head sh (astart a) [], [])
-    | LK2 sid acc =>
-        if readers L =? 0 then (sh, ACrashL, [])
-        else match sidx sh sid with Some _ => (sh, ANext (LK3 sid acc), []) | None => (sh, ACrashD MShared, []) end
-    | LK3 sid acc =>
-        match getS sh sid with
-        | Some s => (sh, ANext (LK4 sid (ssize s) acc), [])
-        | None => (sh, ACrashD MShared, [])
-        end
-    | LK4 sid sz acc =>
-        match getS sh sid with
-        | Some s => (sh, lk_head sh (snext s) (acc ++ [(sid, sz)]), [])
-        | None => (sh, ACrashD MShared, [])
-        end
-    end
+      let '(a', sh1, r, evs) := astepA sh a p in
+      (putA sh1 f a', r, evs)
   end.
 
 (* ---------- processes ---------- *)
@@ -696,8 +700,9 @@ Definition sprobe (sh : mshared) : option (list mevent) :=
    and through freeEntry/freeEntryByKey calls (transient) *)
 Definition pri (f : N) (th : mthread) : pc :=
   match tpc th with
-  | Prim g p => if (g =? f)%N then alock p else Ready (cm_lmode (cm th) f)
-  | StuckP g m => if (g =? f)%N then Done m else Ready (cm_lmode (cm th) f)
+  | Prim g p => if (g =? f)%N then alock p else Ready MIdle
+  | StuckP g m => if (g =? f)%N then Done m else Ready MIdle
+  | KeyW _ | KeyR _ => Ready MIdle
   | _ => Ready (cm_lmode (cm th) f)
   end.
 Definition tra (f : N) (th : mthread) : pc :=
@@ -706,3 +711,6 @@ Definition tra (f : N) (th : mthread) : pc :=
   | StuckT g m => if (g =? f)%N then Done m else Ready MIdle
   | _ => Ready MIdle
   end.
+(* the processes of anchor f's lock *)
+Definition proj (f : N) (ths : list mthread) : list thread :=
+  flat_map (fun th => [(pri f th, @nil op); (tra f th, @nil op)]) ths.
